@@ -4,6 +4,7 @@ import (
 	"path/filepath"
 	"reflect"
 	"regexp"
+	"sort"
 	"strings"
 
 	"github.com/invopop/gobl/schema"
@@ -15,8 +16,18 @@ func FindType(term string) schema.ID {
 }
 
 func findType(types map[reflect.Type]schema.ID, term string) schema.ID {
+	// go through the types in a fixed order, so that a term that fits several of
+	// them always names the same one
+	list := make([]reflect.Type, 0, len(types))
+	for typ := range types {
+		list = append(list, typ)
+	}
+	sort.Slice(list, func(i, j int) bool {
+		return types[list[i]] < types[list[j]]
+	})
 	schema := toSchema(term)
-	for typ, id := range types {
+	for _, typ := range list {
+		id := types[typ]
 		if term == string(id) {
 			return id
 		}
